@@ -9,10 +9,15 @@
    expression over switchable conditions (the memoised object algebra that
    builds such filters is modelled in Model/C04_Filters.v).  A handler's effect
    is data: a list of actions (flip a condition, feed keys, raise).
+   [app.is_done] is the flag [d]: a handler effect "exit" (event.app.exit())
+   sets it; a retry pass of the generator that finds it set hands the keys
+   left in the buffer back to the FRONT of input_queue, in order, and
+   process_keys stops popping.
    Outside the model: KeyPressEvent.arg / is_repeat / previous_key_sequence,
    macro recording, undo save points, vi cursor fix-up, before/after_key_press
    events, the asyncio flush timer (the timeout is the [IFlush] item),
-   app.is_done / CPR handling. *)
+   cursor position reports (Keys.CPRResponse is not in the key alphabet:
+   _handle_cpr_response and the CPR-only pops after is_done never trigger). *)
 From Coq Require Import ZArith List Bool.
 From PTK Require Import Lib.Sx.
 Import ListNotations.
@@ -60,7 +65,8 @@ Inductive item : Type := IKey (k : Z) | IFlush.
 Inductive action : Type :=
 | AFlip (c : nat)                         (* the handler switches a condition *)
 | ARaise                                  (* the handler raises *)
-| AFeed (first : bool) (its : list item). (* key_processor.feed_multiple(its, first) *)
+| AFeed (first : bool) (its : list item)  (* key_processor.feed_multiple(its, first) *)
+| AExit.                                  (* event.app.exit(): is_done becomes true; raises when already set *)
 
 Record binding : Type := mkbinding {
   bkeys : list Z;       (* Binding.keys; may contain ANY *)
@@ -153,28 +159,40 @@ Fixpoint last_opt {T} (l : list T) : option T :=
 Inductive event : Type :=
 | EInvoke (i : nat) (ks : list Z)                    (* handler of binding #i called with key_sequence ks *)
 | EDrop (k : Z)                                      (* del buffer[:1] *)
-| ERaised (lostbuf : list Z) (lostq : list item).    (* exception: reset() + empty_queue() discard these *)
+| ERaised (lostbuf : list Z) (lostq : list item)     (* exception: reset() + empty_queue() discard these *)
+| EBack (ks : list Z)                                (* is_done: input_queue.extendleft(reversed(buffer)); del buffer[:] *)
+| EPop (it : item)                                   (* process_keys: input_queue.popleft() *)
+| EFed (first : bool) (its : list item).             (* a handler called feed_multiple *)
 
-(* handler body: returns environment, input queue, raised? *)
-Fixpoint run_actions (acts : list action) (e : env) (q : list item) : env * list item * bool :=
+(* outcome of a handler body *)
+Record hres : Type := mkhres {
+  he : env; hq : list item; hdone : bool; hevs : list event; hraised : bool
+}.
+
+Fixpoint run_actions (acts : list action) (e : env) (q : list item) (d : bool) : hres :=
   match acts with
-  | [] => (e, q, false)
-  | AFlip c :: r => run_actions r (flip c e) q
-  | ARaise :: _ => (e, q, true)
-  | AFeed first its :: r => run_actions r e (if first then its ++ q else q ++ its)
+  | [] => mkhres e q d [] false
+  | AFlip c :: r => run_actions r (flip c e) q d
+  | ARaise :: _ => mkhres e q d [] true
+  | AFeed first its :: r =>
+      let x := run_actions r e (if first then its ++ q else q ++ its) d in
+      mkhres (he x) (hq x) (hdone x) (EFed first its :: hevs x) (hraised x)
+  | AExit :: r => if d then mkhres e q d [] true     (* "Return value already set" *)
+                  else run_actions r e q true
   end.
 
 Inductive lres : Type :=
-| LDone (b : list Z) (e : env) (q : list item) (evs : list event)  (* generator back at `yield` *)
-| LRaised (e : env) (evs : list event)                             (* exception left the generator *)
+| LDone (b : list Z) (e : env) (q : list item) (d : bool) (evs : list event)  (* generator back at `yield` *)
+| LRaised (e : env) (d : bool) (evs : list event)                             (* exception left the generator *)
 | LFuel.
 
-Definition lcons (ev : event) (r : lres) : lres :=
+Definition lapp (pre : list event) (r : lres) : lres :=
   match r with
-  | LDone b e q evs => LDone b e q (ev :: evs)
-  | LRaised e evs => LRaised e (ev :: evs)
+  | LDone b e q d evs => LDone b e q d (pre ++ evs)
+  | LRaised e d evs => LRaised e d (pre ++ evs)
   | LFuel => LFuel
   end.
+Definition lcons (ev : event) (r : lres) : lres := lapp [ev] r.
 
 (*  for i in range(len(buffer), 0, -1): matches = self._get_matches(buffer[:i]); if matches: ...  *)
 Fixpoint scan (bs : list ib) (e : env) (b : list Z) (i : nat) : option (nat * ib) :=
@@ -186,66 +204,78 @@ Fixpoint scan (bs : list ib) (e : env) (b : list Z) (i : nat) : option (nat * ib
             end
   end.
 
+(*  if retry and get_app().is_done:
+        retry = False; self.input_queue.extendleft(reversed(buffer)); del buffer[:]; continue   (-> yield)  *)
+Definition hand_back (rest : list Z) (e : env) (q : list item) : lres :=
+  LDone [] e (map IKey rest ++ q) true [EBack rest].
+
 (* One pass of `while True:` in _process, after the key was appended (or the
    flush flag set), and the passes that follow while `retry` is set. *)
-Fixpoint loop (fuel : nat) (bs : list ib) (b : list Z) (flush : bool) (e : env) (q : list item) : lres :=
+Fixpoint loop (fuel : nat) (bs : list ib) (b : list Z) (flush : bool) (e : env) (q : list item) (d : bool) : lres :=
   match fuel with
   | O => LFuel
   | S fuel' =>
     match b with
-    | [] => LDone [] e q []                      (* `if buffer:` is false; back to yield *)
+    | [] => LDone [] e q d []                      (* `if buffer:` is false; back to yield *)
     | _ =>
       let ms := get_matches bs e b in
       let pref := if flush then false else is_prefix bs e b in
       let es := filter (eager e) ms in
       let ms' := match es with [] => ms | _ => es end in
       let pref' := match es with [] => pref | _ => false end in
-      if pref' then LDone b e q []
+      if pref' then LDone b e q d []
       else
         match last_opt ms' with
         | Some m =>
-            let '(e', q', raised) := run_actions (bacts (snd m)) e q in
-            if raised then LRaised e' [EInvoke (fst m) b; ERaised [] q']
-            else LDone [] e' q' [EInvoke (fst m) b]
+            let r := run_actions (bacts (snd m)) e q d in
+            if hraised r then LRaised (he r) (hdone r) (EInvoke (fst m) b :: hevs r ++ [ERaised [] (hq r)])
+            else LDone [] (he r) (hq r) (hdone r) (EInvoke (fst m) b :: hevs r)
         | None =>
             match scan bs e b (length b) with
             | Some (i, m) =>
-                let '(e', q', raised) := run_actions (bacts (snd m)) e q in
-                if raised then LRaised e' [EInvoke (fst m) (firstn i b); ERaised (skipn i b) q']
-                else lcons (EInvoke (fst m) (firstn i b)) (loop fuel' bs (skipn i b) false e' q')
+                let r := run_actions (bacts (snd m)) e q d in
+                if hraised r then LRaised (he r) (hdone r)
+                                    (EInvoke (fst m) (firstn i b) :: hevs r ++ [ERaised (skipn i b) (hq r)])
+                else lapp (EInvoke (fst m) (firstn i b) :: hevs r)
+                          (if hdone r then hand_back (skipn i b) (he r) (hq r)
+                           else loop fuel' bs (skipn i b) false (he r) (hq r) false)
             | None =>
-                lcons (EDrop (hd 0 b)) (loop fuel' bs (tl b) false e q)
+                lcons (EDrop (hd 0 b))
+                      (if d then hand_back (tl b) e q else loop fuel' bs (tl b) false e q false)
             end
         end
     end
   end.
 
-Record st : Type := mkst { buf : list Z; queue : list item; cenv : env }.
+Record st : Type := mkst { buf : list Z; queue : list item; cenv : env; sdone : bool }.
 
 Definition is_flush (it : item) : bool := match it with IFlush => true | _ => false end.
 Definition push (b : list Z) (it : item) : list Z :=
   match it with IKey k => b ++ [k] | IFlush => b end.
 
 (* self._process_coroutine.send(key_press); [q] is the input queue after the pop *)
-Definition send (bs : list ib) (b : list Z) (e : env) (q : list item) (it : item) : lres :=
-  loop (S (length (push b it))) bs (push b it) (is_flush it) e q.
+Definition send (bs : list ib) (b : list Z) (e : env) (q : list item) (d : bool) (it : item) : lres :=
+  loop (S (length (push b it))) bs (push b it) (is_flush it) e q d.
 
 Inductive status : Type := SDone | SRaised | SFuel.
 
-(* KeyProcessor.process_keys: `while not_empty(): key_press = get_next(); send; except: reset, empty_queue, raise`.
+(* KeyProcessor.process_keys: `while not_empty(): key_press = get_next(); send; except: reset, empty_queue, raise`;
+   not_empty() is false once app.is_done (no cursor position reports here).
    Returns the state, the events and the items popped from the queue, in order. *)
 Fixpoint process_keys (fuel : nat) (bs : list ib) (s : st) : st * list event * list item * status :=
   match queue s with
   | [] => (s, [], [], SDone)
   | it :: q =>
+    if sdone s then (s, [], [], SDone)
+    else
     match fuel with
     | O => (s, [], [], SFuel)
     | S fuel' =>
-      match send bs (buf s) (cenv s) q it with
-      | LDone b e q' evs =>
-          let '(s', evs', pop, stt) := process_keys fuel' bs (mkst b q' e) in
-          (s', evs ++ evs', it :: pop, stt)
-      | LRaised e evs => (mkst [] [] e, evs, [it], SRaised)
+      match send bs (buf s) (cenv s) q false it with
+      | LDone b e q' d evs =>
+          let '(s', evs', pop, stt) := process_keys fuel' bs (mkst b q' e d) in
+          (s', EPop it :: evs ++ evs', it :: pop, stt)
+      | LRaised e d evs => (mkst [] [] e d, EPop it :: evs, [it], SRaised)
       | LFuel => (s, [], [], SFuel)
       end
     end
@@ -253,7 +283,7 @@ Fixpoint process_keys (fuel : nat) (bs : list ib) (s : st) : st * list event * l
 
 (* feed_multiple(items) ; process_keys() *)
 Definition feed_process (fuel : nat) (bs : list ib) (s : st) (its : list item) :=
-  process_keys fuel bs (mkst (buf s) (queue s ++ its) (cenv s)).
+  process_keys fuel bs (mkst (buf s) (queue s ++ its) (cenv s) (sdone s)).
 
 (* ------------------------------------------------------------- wire format *)
 Fixpoint dec_f (s : sx) : option fexpr :=
@@ -285,6 +315,7 @@ Definition dec_action (s : sx) : option action :=
       | Some fi', Some its' => Some (AFeed fi' its')
       | _, _ => None
       end
+  | L [A 3] => Some AExit
   | _ => None
   end.
 
@@ -310,36 +341,45 @@ Definition enc_event (ev : event) : sx :=
   | EInvoke i ks => L [A 0; A (Z.of_nat i); sx_str ks]
   | EDrop k => L [A 1; A k]
   | ERaised lb lq => L [A 2; sx_str lb; L (map enc_item lq)]
+  | EBack ks => L [A 3; sx_str ks]
+  | EPop it => L [A 4; enc_item it]
+  | EFed f its => L [A 5; sx_bool f; L (map enc_item its)]
   end.
 Definition enc_status (s : status) : sx :=
   match s with SDone => A 0 | SRaised => A 1 | SFuel => A 97 end.
 Definition enc_env (e : env) : sx := L (map sx_bool e).
 
-(* an op of the driver: feed items and run process_keys(), or a condition
-   changing outside any handler (application state changes between key presses) *)
-Inductive op : Type := OpFeed (its : list item) | OpFlip (c : nat).
+(* an op of the driver: feed items and run process_keys(); a condition changing
+   outside any handler; the application being finished from outside a handler *)
+Inductive op : Type := OpFeed (its : list item) | OpFlip (c : nat) | OpExit.
 
 Definition dec_op (s : sx) : option op :=
   match s with
-  | L [A z] => if z <=? -2 then Some (OpFlip (Z.to_nat (-2 - z)))
+  | L [A z] => if z =? -1000 then Some OpExit
+               else if z <=? -2 then Some (OpFlip (Z.to_nat (-2 - z)))
                else match dec_item (A z) with Some it => Some (OpFeed [it]) | None => None end
   | L l => match map_opt dec_item l with Some its => Some (OpFeed its) | None => None end
   | _ => None
   end.
 
-(* every op: feed the items, process; the result lists status, events, popped
-   items, key_buffer, input_queue and the condition values afterwards *)
+Definition enc_state (stt : status) (evs : list event) (pop : list item) (s : st) : sx :=
+  L [enc_status stt; L (map enc_event evs); L (map enc_item pop);
+     sx_str (buf s); L (map enc_item (queue s)); enc_env (cenv s); sx_bool (sdone s)].
+
+(* every op: the result lists status, events, popped items, key_buffer,
+   input_queue, the condition values and is_done afterwards *)
 Fixpoint run_ops (fuel : nat) (bs : list ib) (s : st) (ops : list op) : list sx :=
   match ops with
   | [] => []
   | OpFlip c :: r =>
-      let s' := mkst (buf s) (queue s) (flip c (cenv s)) in
-      L [enc_status SDone; L []; L []; sx_str (buf s'); L (map enc_item (queue s')); enc_env (cenv s')]
-      :: run_ops fuel bs s' r
+      let s' := mkst (buf s) (queue s) (flip c (cenv s)) (sdone s) in
+      enc_state SDone [] [] s' :: run_ops fuel bs s' r
+  | OpExit :: r =>
+      let s' := mkst (buf s) (queue s) (cenv s) true in
+      enc_state SDone [] [] s' :: run_ops fuel bs s' r
   | OpFeed its :: r =>
       let '(s', evs, pop, stt) := feed_process fuel bs s its in
-      L [enc_status stt; L (map enc_event evs); L (map enc_item pop);
-         sx_str (buf s'); L (map enc_item (queue s')); enc_env (cenv s')]
+      enc_state stt evs pop s'
       :: match stt with SFuel => [] | _ => run_ops fuel bs s' r end
   end.
 
@@ -350,7 +390,7 @@ Definition run_keyproc (c : list sx) : sx :=
       match map_opt as_bool e, map_opt dec_binding bs, map_opt dec_op ops with
       | Some e', Some bs', Some ops' =>
           if (0 <=? fuel) && (fuel <=? 100000)
-          then L (run_ops (Z.to_nat fuel) (index_from 0 bs') (mkst [] [] e') ops')
+          then L (run_ops (Z.to_nat fuel) (index_from 0 bs') (mkst [] [] e' false) ops')
           else bad_case
       | _, _, _ => bad_case
       end
